@@ -41,7 +41,7 @@ Theorem C17_selected_subset : forall srt, (forall t, forest_perm t (srt t)) ->
 Proof. exact selected_subset. Qed.
 Print Assumptions C17_selected_subset.
 
-(** Same statement on any well-formed forest, any parent path and options. *)
+(** Same statement on any forest, any parent path and inherited options. *)
 Theorem C17_label_value_forest : forall c l pp po, Forall label_ok (exec_forest c pp po l).
 Proof. exact exec_forest_label. Qed.
 Print Assumptions C17_label_value_forest.
